@@ -9,7 +9,7 @@ ALL_DATES = (DATE_MIN, DATE_MAX)
 CLK = "2024 3 15 10 20 30 400000"
 
 
-SPEC_OPS = {"F.try_new", "F.try_new_idx", "D.trunc", "D.round", "TS.trunc", "TS.round", "OD.trunc", "OD.round", "D.extract",
+SPEC_OPS = {"F.try_new", "F.try_new_idx", "F.format", "F.display", "D.trunc", "D.round", "TS.trunc", "TS.round", "OD.trunc", "OD.round", "D.extract",
             "D.dow", "D.try_from_ymd", "D.last_day"}
 
 
@@ -193,18 +193,18 @@ def streams_for(pid, tier, rng):
         dstride = 1 if thorough else 37
         for t in date_toks:
             lines.append("@range %d %d %d %d F.format D %% %s -1" % (DATE_MIN, DATE_MAX, dstride, BLK, hx(t)))
-        S.append(Stream("all dates x date tokens", lines, exhaustive=thorough))
+        S.append(Stream("all dates x date tokens", lines, exhaustive=thorough, spec=True))
         lines = []
         for t in ["HH24", "HH12", "HH", "MI", "SS", "AM", "pm", "A.M.", "p.m.", "HH24:MI:SS"]:
             lines.append("@range 0 %d 1000000 %d F.format T %% %s -1" % (USECS_PER_DAY - 1, BLK, hx(t)))
-        S.append(Stream("all seconds x time tokens", lines, exhaustive=True))
+        S.append(Stream("all seconds x time tokens", lines, exhaustive=True, spec=True))
         lines = []
         ustep = 1 if thorough else 7
         for t in ["FF", "FF1", "FF2", "FF3", "FF4", "FF5", "FF6", "FF7", "FF8", "FF9"]:
             lines.append("@range 0 999999 %d %d F.format T %% %s -1" % (ustep, BLK, hx(t)))
-        S.append(Stream("all microseconds x FF", lines, exhaustive=thorough))
-        S.append(Stream("composite pictures", format_lines(rng, pools, 30000 * scale, 36, applicable_only=True)))
-        S.append(Stream("inapplicable tokens", format_lines(rng, pools, 5000 * scale, 4, applicable_only=False)))
+        S.append(Stream("all microseconds x FF", lines, exhaustive=thorough, spec=True))
+        S.append(Stream("composite pictures", format_lines(rng, pools, 30000 * scale, 36, applicable_only=True), spec=True))
+        S.append(Stream("inapplicable tokens", format_lines(rng, pools, 5000 * scale, 4, applicable_only=False), spec=True))
         S.append(Stream("interval day widths", ["F.format DT %d %s -1" % (sgn * (d * USECS_PER_DAY + t), hx(pic))
                         for d in list(range(0, 41)) + [99, 100, 101, 999, 1000, 99999999, 100000000]
                         for t in (0, 3723000004) for sgn in (1, -1) for pic in ("DD HH24:MI:SS.FF", "DD", "HH24 DD")
